@@ -195,6 +195,9 @@ var structGensRedis = []structGen{
 	redisVariant(structGens[4], "topk-redis", func() Machine { return &topkRedis{} }),
 }
 
+// cuckoo-redis supports the core operations and re-attachment (C02, C13, C14, C09, C08, C16, C19)
+var cuckooRedisGen = redisVariant(structGens[3], "cuckoo-redis", func() Machine { return &cuckooRedis{} })
+
 // pairedQueries interleaves the same queries on instances a and b (a first).
 func pairedQueries(sg structGen, g *Gen, a, b int, pool [][]byte) []Tok {
 	sub := g.R.Int63()
